@@ -38,6 +38,13 @@ CENTIK = PU("cK", "Centi<Kelvins>", Fraction(1, 100))
 KILOK = PU("kK", "Kilo<Kelvins>", 1000)
 KILOC = PU("kdegC", "Kilo<Celsius>", 1000, 27315, Fraction(1, 100))      # a prefix scales the unit, the origin stays 273.15 K
 MILLIC = PU("mdegC", "Milli<Celsius>", Fraction(1, 1000), 27315, Fraction(1, 100))
+# units that share Celsius' (or Fahrenheit's) non-zero origin with scales that are not multiples of one another (anonymous rescalings inherit the origin)
+C_X7 = PU("degCx7", "decltype(Celsius{} * mag<7>())", 7, 27315, Fraction(1, 100))
+C_D3 = PU("degC_3", "decltype(Celsius{} / mag<3>())", Fraction(1, 3), 27315, Fraction(1, 100))
+C_2_7 = PU("degC2_7", "decltype(Celsius{} * mag<2>() / mag<7>())", Fraction(2, 7), 27315, Fraction(1, 100))
+CENTIF = PU("cdegF", "Centi<Fahrenheit>", Fraction(5, 900), 45967, Fraction(5, 900))
+F_2_3 = PU("degF2_3", "decltype(Fahrenheit{} * mag<2>() / mag<3>())", Fraction(10, 27), 45967, Fraction(5, 900))
+SAME_ORIGIN = [C_X7, C_D3, C_2_7, CENTIF, F_2_3]
 LIB = [KELVINS, CELSIUS, FAHRENHEIT, MILLIK, CENTIK, KILOK]
 LIB_EXT = LIB + [KILOC, MILLIC]
 
